@@ -81,9 +81,15 @@ class Recorder:
             # record can always be shipped from a worker process and written to a replay file
             def plain(x):
                 try:
-                    return json.loads(jdump(x))
+                    t = jdump(x)
+                    if len(t) > 20000 or t.count('[') + t.count('{') > 400:
+                        return t[:1500] + ' ...(%d characters)' % len(t)      # huge / deeply nested: kept as truncated text
+                    return json.loads(t)
                 except Exception:   # noqa
-                    return repr(x)[:2000]
+                    try:
+                        return repr(x)[:2000]
+                    except Exception:   # noqa - e.g. nested too deeply to be rendered
+                        return '<%s that cannot be rendered>' % type(x).__name__
             self.violations.append(dict(signature=signature, case=case, expected=plain(expected),
                                         observed=plain(observed), detail=plain(detail)))
 
